@@ -38,3 +38,16 @@ Theorem C02_stored_document_roundtrip :
     Some ({| Spec.s_field := Spec.id_name; Spec.s_typ := 116; Spec.s_val := idv; Spec.s_ap := [] |} :: map (StoredProof.sval_of ft) es).
 Proof. exact StoredProof.stored_doc_roundtrip. Qed.
 Print Assumptions C02_stored_document_roundtrip.
+
+Require ZV.BuildAlg ZV.StoredBuild.
+
+(* the builder's stored-field pass (instances appended to per-field buckets in visiting order, buckets
+   emitted in field order) yields the specification's stored values, field by field *)
+Theorem C02_stored_pass_is_spec : forall fs d, BuildAlg.stored_pass fs d = List.flat_map (Spec.stored_of d) fs.
+Proof. exact StoredBuild.stored_pass_is_spec. Qed.
+Print Assumptions C02_stored_pass_is_spec.
+
+(* the instance the correspondence run executes next to zapx (request 23) *)
+Theorem C02_stored_run_is_spec : forall b, BuildAlg.stored_run b = Spec.c_stored (Spec.spec_of_batch b).
+Proof. exact StoredBuild.stored_run_is_spec. Qed.
+Print Assumptions C02_stored_run_is_spec.
